@@ -290,6 +290,25 @@ func (ba *flatBlobAccess) GetFromComposite(ctx context.Context, parentDigest, ch
 
 	// Complete refreshing in case it was performed.
 	ba.lock.Lock()
+	if !needsRefresh {
+		// The lock was dropped while slicing. Block rotations that
+		// happened in the meantime cause the block index of the
+		// parent's location to be stale, as it is relative to the
+		// start of the block list. Look up the parent once more.
+		parentLocation, err = ba.keyLocationMap.Get(parentKey)
+		if err != nil {
+			ba.lock.Unlock()
+			if status.Code(err) == codes.NotFound {
+				// The parent object disappeared in the
+				// meantime. We can still return the child
+				// object, but there is nothing left to
+				// point key-location map entries to.
+				return bChild
+			}
+			bChild.Discard()
+			return buffer.NewBufferFromError(err)
+		}
+	}
 	if needsRefresh {
 		parentLocation, err = ba.finalizePut(putFinalizer, parentKey)
 		// Add size metric before refresh
